@@ -259,6 +259,14 @@ def run(tier: str, seed: int, want: typing.Sequence[str] = ("W", "R", "A", "S"))
             # nested sub-reader: limit is relative to its own start
             sub2 = it.call_method(sub, "bounded_subreader", [5])
             claims.append(z3.BoolVal(it.call_method(sub2, "remaining_bits", []) == 5))
+            # reading past the limit: zeros, and nothing (never a negative number of bits) remains afterwards
+            over = it.call_method(sub2, "read_bits", [12])
+            claims.append(pz.bv(over) == (pz.bv(over) & 31))
+            claims.append(z3.BoolVal(it.call_method(sub2, "remaining_bits", []) == 0))
+            claims.append(z3.BoolVal(it.call_method(sub, "remaining_bits", []) == max(0, k_ - min(k_, 9) - 5)))
+            rest = pz.new_reader(_sym_bytes("e", 1), 3)
+            it.call_method(rest, "read_bits", [40])
+            claims.append(z3.BoolVal(it.call_method(rest, "remaining_bits", []) == 0))
             return _check(solver, claims, list(it.side))
 
         family("pz.S", "bounded_subreader(k) / remaining_bits bookkeeping from offsets 0..40, k in 0..40, 0..6 data bytes",
